@@ -620,8 +620,51 @@ fn has_key(doc: &TV, k: &str) -> bool {
     doc.get(k).is_some()
 }
 
-/// One valid document and all of its mutations. Returns number of parses, number of below-top-level mutations.
+/// evidence counters collected on a worker thread and absorbed on the main thread
+#[derive(Default)]
+struct Acc {
+    evals: std::cell::Cell<u64>,
+    classes: std::cell::RefCell<std::collections::BTreeMap<String, u64>>,
+    nontrivial: std::cell::RefCell<Vec<u64>>,
+}
+struct AccOut {
+    evals: u64,
+    classes: std::collections::BTreeMap<String, u64>,
+    nontrivial: Vec<u64>,
+}
+impl Acc {
+    fn eval(&self) {
+        self.evals.set(self.evals.get() + 1);
+    }
+    fn class(&self, c: &str) {
+        *self.classes.borrow_mut().entry(c.to_string()).or_insert(0) += 1;
+    }
+    fn nontrivial(&self, h: u64) {
+        self.nontrivial.borrow_mut().push(h);
+    }
+    fn finish(self) -> AccOut {
+        AccOut { evals: self.evals.get(), classes: self.classes.into_inner(), nontrivial: self.nontrivial.into_inner() }
+    }
+}
+fn absorb(ctx: &Ctx, a: AccOut) {
+    ctx.eval_n(a.evals);
+    for (c, n) in a.classes {
+        ctx.class_n(&c, n);
+    }
+    for h in a.nontrivial {
+        ctx.nontrivial(h);
+    }
+}
+
 fn check_doc(ctx: &Ctx, ty: Ty, doc: &TV) -> Check {
+    let acc = Acc::default();
+    let r = check_doc_acc(&acc, ty, doc);
+    absorb(ctx, acc.finish());
+    r
+}
+
+/// One valid document and all of its mutations.
+fn check_doc_acc(ctx: &Acc, ty: Ty, doc: &TV) -> Check {
     let name = ty_name(ty);
     let text = emit_doc(doc);
     ctx.eval();
@@ -726,20 +769,25 @@ pub fn run(ctx: &Ctx) {
     for (_p, v) in ctx.regress_files() {
         replay(ctx, "", &v["case"]);
     }
-    let per_type = ctx.tier.pick(150, 4000);
+    let per_type = ctx.tier.pick(600, 8000);
     for ty in TYPES {
         let strat = table_strategy(schema(ty));
-        ctx.run_prop(
+        ctx.run_prop_par(
             ty_name(ty),
             strat,
             per_type,
             |d| json!({"type": ty_name(ty), "doc": d.to_json()}),
             |d| {
+                let acc = Acc::default();
+                let r = check_doc_acc(&acc, ty, d);
+                (r, acc.finish())
+            },
+            |d, a| {
+                absorb(ctx, a);
                 ctx.class(&format!("valid:{}", ty_name(ty)));
                 if (ctx.samples_len() < 2 || hash_of(&emit_doc(d)) % 17 == 0) && d.depth() >= 3 {
                     ctx.sample(9, || json!({"type": ty_name(ty), "valid_document": emit_doc(d)}));
                 }
-                check_doc(ctx, ty, d)
             },
         );
     }
